@@ -55,7 +55,8 @@ LOOP_TERMINALS = ("loop_while", "loop_cb", "loop_regex", "loop_eval", "loop_gett
 REC_TERMINALS = ("rec_self", "rec_cb", "rec_in_try", "rec_global_array_cb")
 MIRRORED_TERMINALS = ("none", "throw_err", "throw_str", "type_error", "throw_in_try_finally")
 NESTED_TERMINALS = ("nested_eval_throw", "nested_eval2_throw", "nested_eval_loop", "nested_newfn_throw")
-OTHER_TERMINALS = ("none", "none", "throw_err", "throw_str", "type_error", "throw_in_try_finally", "syntax", "host_raise", "sink_fail",
+OTHER_TERMINALS = ("none", "none", "throw_err", "throw_str", "type_error", "throw_in_try_finally", "syntax", "compile_error_nested",
+                   "compile_error_label", "host_raise", "sink_fail",
                    "nested_eval_throw", "nested_eval2_throw", "nested_newfn_throw")
 
 TERMINAL_SRC = {
@@ -79,6 +80,8 @@ TERMINAL_SRC = {
     "host_raise": "boom();",
     "sink_fail": "console.log('to a broken sink');",
     "syntax": "var = ;",
+    "compile_error_nested": "function zq9(g0, g1) { var g2 = 1; function g3() { return 1; } function zin9() { break; } return g2; }",
+    "compile_error_label": "function zq8(g1, g3) { var g0; var zf8 = function () { function zd8() { continue nolabel; } }; }",
 }
 
 
@@ -471,6 +474,8 @@ class Sim:
             "none": ("value",), "throw_err": ("js_error",), "throw_str": ("js_error",), "type_error": ("js_error",),
             "throw_in_try_finally": ("js_error",),
             "syntax": ("js_syntax",), "host_raise": ("host_exc",), "sink_fail": ("host_exc",),
+            # rejected by the compiler before anything runs (the class of the rejection is a C04 matter)
+            "compile_error_nested": ("js_syntax", "js_error", "host_exc"), "compile_error_label": ("js_syntax", "js_error", "host_exc"),
         }
         if term in LOOP_TERMINALS or term == "nested_eval_loop":
             allowed = ("limit_time",)
@@ -487,7 +492,7 @@ class Sim:
                 self.bad("C12.recover", "eval with terminal %s on context %d did not return" % (term, c), step)
             else:
                 self.bad("precondition", "terminal %s ended in %s %s %s" % (term, kind_out, out.get("cls"), out.get("msg")), step)
-        if term == "syntax":
+        if term in ("syntax", "compile_error_nested", "compile_error_label"):
             acked = 0
             n_committed = 0
         else:
@@ -502,7 +507,7 @@ class Sim:
                 self.bad("C12.recover", "eval ending in %s: context %d gives %r, its fault-free twin gives %r" % (term, c, a, b), step)
         # (committed effects were applied to the model and the twin when they were acknowledged)
         # the effect in flight when the fault landed may be present or absent
-        if term != "syntax" and n_committed < n_eff and kind_out != "value":
+        if term not in ("syntax", "compile_error_nested", "compile_error_label") and n_committed < n_eff and kind_out != "value":
             e = op["effects"][n_committed]
             obs = self.observe(ctx, c, step)
             if obs is not None:
